@@ -145,6 +145,7 @@ Proof.
   destruct (N.eqb_spec (len (will_props_body p)) 0) as [E|E].
   - assert (Hb : will_props_body p = []) by (destruct (will_props_body p); [reflexivity|rewrite len_cons in E; lia]).
     rewrite Hb. cbn [app]. apply will_props_body_nil in Hb; [|assumption]. subst. reflexivity.
-  - unfold buf_next. rewrite takeN_app_exact, dropN_app_exact.
+  - rewrite shorter_spec. replace (len (will_props_body p ++ rest) <? len (will_props_body p)) with false by (rewrite len_app; lia).
+    unfold buf_next. rewrite takeN_app_exact, dropN_app_exact.
     fold (will_run props_empty (will_props_body p)). rewrite will_run_body by assumption. reflexivity.
 Qed.
